@@ -54,6 +54,23 @@ def gen_plan(rng, tier, config, opts):
             raw = b'\x04' + b''.join(c.to_bytes(F, 'big') for c in (x[0], x[1], y[0], y[1]))
             lines += ['RAW %d %s %s' % (s, t, raw.hex()), 'DEC %d %s' % (s, t), 'XCODE %d %s 1' % (s, t), 'DEC %d %s' % (s, t),
                       'XCODE %d %s 0' % (s, t), 'DEC %d %s' % (s, t)]
+    if curve in _PAIRF_G1 and rng.chance(0.3):
+        # points of the pairing-friendly curve whose y sits at the threshold (p - 1)/2 of the compression rule, and their
+        # negatives: uncompressed bytes -> decode -> compressed -> decode -> uncompressed (the two must keep apart - also
+        # when the executor process has compressed points of another pairing-friendly curve before)
+        F = 32
+        for _ in range(rng.randint(1, 3)):
+            pts = special_g1_points(curve)
+            if not pts:
+                break
+            (x, y) = rng.choice(pts)
+            if rng.chance(0.5):
+                y = (-y) % _PAIRF_G1[curve]['p']
+            t = rng.choice(['ep', 'ep', 'g1'])
+            s = rng.below(8)
+            raw = b'\x04' + x.to_bytes(F, 'big') + y.to_bytes(F, 'big')
+            lines += ['RAW %d %s %s' % (s, t, raw.hex()), 'DEC %d %s' % (s, t), 'XCODE %d %s 1' % (s, t), 'DEC %d %s' % (s, t),
+                      'XCODE %d %s 0' % (s, t), 'DEC %d %s' % (s, t)]
     if rng.chance(0.04):
         # the point of order two (0, sqrt(b)) of the binary curve, and the compressed strings with x = 0
         s = rng.below(8)
@@ -240,6 +257,34 @@ _B283 = dict(poly=0x080000000000000000000000000000000000000000000000000000000000
              b=0x027b680ac8b8596da5a4af8a19a0303fca97fd7645309fa2a581485af6263e313b79a2f5)
 _BN256 = dict(p=0xb64000000000ff2f2200000085fd5480b0001f44b6b88bf142bc818f95e3e6af, b=(4, -1))
 _SPECIAL_G2 = []
+
+
+_PAIRF_G1 = {'BN_P256': dict(p=0xb64000000000ff2f2200000085fd5480b0001f44b6b88bf142bc818f95e3e6af, b=17),
+             'SM9_P256': dict(p=0xb640000002a3a6f1d603ab4ff58ec74521f2934b1a7aeedbe56f9b27e351457d, b=5)}
+_SPECIAL_G1 = {}
+
+
+def special_g1_points(curve):
+    """Points of a pairing-friendly curve y^2 = x^3 + b whose y sits at the threshold (p - 1)/2 of the compression
+    rule, a few units to either side: y is chosen, x is a cube root of y^2 - b (p = 1 mod 3)."""
+    if curve in _SPECIAL_G1:
+        return _SPECIAL_G1[curve]
+    p, b = _PAIRF_G1[curve]['p'], _PAIRF_G1[curve]['b']
+    f2 = Fp2(p, -1)
+    pts = []
+    for base, step in (((p - 1) // 2, -1), ((p + 1) // 2, 1)):
+        got = 0
+        for k in range(60):
+            y = base + step * k
+            c = (y * y - b) % p
+            r = _fp2_cbrt(f2, (c, 0))
+            if r is not None and r[1] == 0 and (pow(r[0], 3, p) + b - y * y) % p == 0:
+                pts.append((r[0], y))
+                got += 1
+                if got >= 3:
+                    break
+    _SPECIAL_G1[curve] = pts
+    return pts
 
 
 def special_g2_points():
